@@ -42,6 +42,20 @@ def run(tier):
         rv = vlib.tlc("AgdbRaftHealthy", "MCRaftHealthy_vacuity.cfg", workers=6, timeout=600, xmx="8g", tag="c30vac")
         if rv.violated != "ReachesDeadline":
             raise vlib.ToolError("vacuity probe: no state at or after the deadline is reachable in the healthy model")
+        # D24 at design level: from a start in which message loss left node 1 one term ahead, the two-node model converges
+        # with the repaired vote rule and does not without it (probe: the model can tell the difference)
+        r2 = vlib.tlc("AgdbRaftHealthy", "MCRaftHealthy2_offset.cfg", workers=4, timeout=900, xmx="6g", tag="c30d24")
+        vlib.require_mc_ok(r2, "MCRaftHealthy2_offset.cfg")
+        r2a = vlib.tlc("AgdbRaftHealthy", "MCRaftHealthy2_offset_asis.cfg", workers=4, timeout=900, xmx="6g", tag="c30d24a")
+        log("[C30] mc two nodes, terms one apart: repaired rule %d states violated=%s; rule before the repair violated=%s" %
+            (r2.distinct, r2.violated, r2a.violated))
+        stats["mc"].append(r2.summary())
+        stats["states"] += r2.distinct
+        stats["transitions"] += r2.generated
+        if r2.violated:
+            log("[C30] the two-node healthy model violates %s (candidate; decided on the real code below)" % r2.violated)
+        if r2a.violated != "HealthyProgress":
+            raise vlib.ToolError("probe: the healthy model without the D24 repair should violate HealthyProgress from the offset start")
         drift = 0
         # the *div profiles: clients append during the fault-ridden prefix, so the logs differ when the network heals
         for (name, n, q, t, extra) in (("healthy3", 3, 300, 4000, []), ("healthy5", 5, 60, 800, []), ("healthy4", 4, 60, 800, []),
